@@ -24,7 +24,7 @@ func checkC11(c *km.Ctx) {
 	r.Rule("R-C11-2", "checkAuth grants the IP-certificate credential only on the helper's success; chains anchored at the role-requesting CA are never admitted as ordinary certificates", 5)
 	r.Rule("R-C11-3", "refresh: identity = authenticated name, netblocks = those extracted from the authenticated certificate; nothing request-supplied flows into either; only an IP-certificate credential is accepted", 2)
 	r.Rule("R-C11-4", "encoder and decoder agree: BitLength = ones of a 32-bit mask; ceil(BitLength/8) leading bytes copied unmodified; mask = CIDRMask(BitLength, 32); same family constant on both sides", 4)
-	r.Rule("R-C11-6", "minting: the netblocks the request parser places in the generation parameters derive from the request's requestor_netblock values and from nothing else in the request; the generator receives that field", 2)
+	r.Rule("R-C11-6", "minting: the netblocks the request parser places in the generation parameters derive from the request's requestor_netblock values and from nothing else in the request; the generator receives that field; a netblock's base address is ParseCIDR's network result, never the address as typed", 2)
 	r.Rule("R-C11-5", "the decoder's copy is bounded by BitLength <= 32 and by the length of the encoded bytes", 1)
 
 	// ---------- R-C11-1
